@@ -307,8 +307,10 @@ Fixpoint build_secs (c : config) (s : st) (remote : list osec) (idx : list nat) 
 Definition clear_mid (a : asec) : asec :=
   mkAsec (a_kind a) EmptyString (a_dir a) (a_proto a) (a_pts a) (a_apt a) (a_ext a) (a_mux a) (a_setup a).
 
+(* since ca1331b an answer echoes an offered BUNDLE group in every compatibility mode (LegacySip only
+   keeps the stack from proposing a group in its own offers) *)
 Definition will_bundle (c : config) (o : offer) : bool :=
-  negb (c_legacy c) && match f_groups o with [] => false | _ => true end.
+  match f_groups o with [] => false | _ => true end.
 
 Definition finish_answer (c : config) (o : offer) (secs : list asec) : answer :=
   match secs with
@@ -316,7 +318,7 @@ Definition finish_answer (c : config) (o : offer) (secs : list asec) : answer :=
   | _ =>
       let wb := will_bundle c o in
       let grp := if wb then Some (map a_mid secs) else None in
-      if c_legacy c then mkAnswer grp (map clear_mid secs)
+      if c_legacy c && negb wb then mkAnswer grp (map clear_mid secs)
       else if negb wb && (1 <? Z.of_nat (List.length secs)) then mkAnswer grp (map clear_mid secs)
       else mkAnswer grp secs
   end.
